@@ -161,12 +161,17 @@ func NewFieldValues(a SessionAssets, values map[string]*Value, missing assets.Mi
 		fieldValues.Set(field, value)
 	}
 
-	// log any unmatched field keys as missing assets
+	// log any unmatched field keys as missing assets (in a fixed order)
+	unmatched := make([]string, 0)
 	for key := range values {
 		_, valid := fieldValues[key]
 		if !valid {
-			missing(assets.NewFieldReference(key, ""), nil)
+			unmatched = append(unmatched, key)
 		}
+	}
+	sort.Strings(unmatched)
+	for _, key := range unmatched {
+		missing(assets.NewFieldReference(key, ""), nil)
 	}
 
 	return fieldValues
